@@ -107,9 +107,12 @@ func getDecoder(packet []byte, state *stateDecode) (*decoder, []byte, error) {
 			return nil, nil, errDecodeEOD
 		}
 
-		dec, _, err := decodeType(packet[:n], state)
+		dec, f, err := decodeType(packet[:n], state)
 		if err != nil {
 			return nil, nil, err
+		}
+		if len(f) > 0 {
+			return nil, nil, fmt.Errorf("extra data in folded type: %#v", f)
 		}
 		packet = packet[n:]
 		return dec, packet, nil
@@ -185,9 +188,6 @@ func decodeType(fold []byte, state *stateDecode) (*decoder, []byte, error) {
 		decValue, f, err := decodeType(f, state)
 		if err != nil {
 			return nil, nil, fmt.Errorf("unable to unfold type (map value): %s", err)
-		}
-		if len(f) > 0 {
-			return nil, nil, fmt.Errorf("extra data in folded type (map): %#v", f)
 		}
 
 		vtype := reflect.MapOf(decKey.Type, decValue.Type)
@@ -268,19 +268,17 @@ func decodeType(fold []byte, state *stateDecode) (*decoder, []byte, error) {
 			Decode: fdec,
 		}
 		if state.options.Cache != nil {
-			state.options.Cache.LoadOrStore(string(fold), &dec)
+			state.options.Cache.LoadOrStore(string(fold[:len(fold)-len(f)]), &dec)
 		}
 
-		return &dec, nil, nil
+		// what follows the descriptor belongs to the caller (a map key of array type is followed by the value type)
+		return &dec, f, nil
 
 	case edtSlice:
 		// unfold key type
 		decItem, f, err := decodeType(fold[1:], state)
 		if err != nil {
 			return nil, nil, fmt.Errorf("unable to unfold type (slice): %s", err)
-		}
-		if len(f) > 0 {
-			return nil, nil, fmt.Errorf("extra data in folded type (slice): %#v", f)
 		}
 
 		vtype := reflect.SliceOf(decItem.Type)
@@ -356,10 +354,11 @@ func decodeType(fold []byte, state *stateDecode) (*decoder, []byte, error) {
 			Decode: fdec,
 		}
 		if state.options.Cache != nil {
-			state.options.Cache.LoadOrStore(string(fold), &dec)
+			state.options.Cache.LoadOrStore(string(fold[:len(fold)-len(f)]), &dec)
 		}
 
-		return &dec, nil, nil
+		// what follows the descriptor belongs to the caller (a map key of array type is followed by the value type)
+		return &dec, f, nil
 
 	case edtArray:
 		// length of the array
@@ -373,9 +372,6 @@ func decodeType(fold []byte, state *stateDecode) (*decoder, []byte, error) {
 		decItem, f, err := decodeType(fold[5:], state)
 		if err != nil {
 			return nil, nil, fmt.Errorf("unable to unfold type (array): %s", err)
-		}
-		if len(f) > 0 {
-			return nil, nil, fmt.Errorf("extra data in folded type (array): %#v", f)
 		}
 
 		vtype := reflect.ArrayOf(n, decItem.Type)
@@ -417,10 +413,11 @@ func decodeType(fold []byte, state *stateDecode) (*decoder, []byte, error) {
 		}
 
 		if state.options.Cache != nil {
-			state.options.Cache.LoadOrStore(string(fold), &dec)
+			state.options.Cache.LoadOrStore(string(fold[:len(fold)-len(f)]), &dec)
 		}
 
-		return &dec, nil, nil
+		// what follows the descriptor belongs to the caller (a map key of array type is followed by the value type)
+		return &dec, f, nil
 
 	case edtReg:
 		return getRegDecoder(fold[1:], state)
